@@ -211,7 +211,13 @@ func listObjs(b storage.BucketHandle, prefix string) (names []string, err error)
 func snapshot(dir string) map[string][]byte {
 	out := map[string][]byte{}
 	filepath.WalkDir(dir, func(p string, d fs.DirEntry, err error) error {
-		if err != nil || d.IsDir() {
+		if err != nil {
+			return nil
+		}
+		if d.IsDir() { // directories: relative path + "/"
+			if rel, _ := filepath.Rel(dir, p); rel != "." {
+				out[filepath.ToSlash(rel)+"/"] = nil
+			}
 			return nil
 		}
 		rel, _ := filepath.Rel(dir, p)
@@ -345,6 +351,7 @@ func TestVerifC18Replay(t *testing.T) {
 			nw   int
 		}
 		writers := map[string]*openWriter{}
+		ndiv := 0
 		for i, st := range bh.Steps {
 			if !good {
 				break
@@ -430,33 +437,75 @@ func TestVerifC18Replay(t *testing.T) {
 				break
 			}
 			// disk projection: exactly one file per stored object, at root/<bucket>/<name>
-			want := map[string]string{"sentinel": "sentinel"}
+			want := map[string]string{"sentinel": "sentinel", "root/": "dir"}
+			addDirs := func(p string) { // the directories an object at p needs
+				for i := strings.LastIndex(p, "/"); i > 0; i = strings.LastIndex(p[:i], "/") {
+					want[p[:i+1]] = "dir"
+				}
+			}
+			for _, b := range bh.Buckets {
+				want["root/"+b+"/"] = "dir"
+			}
 			for b, m := range st.Objs {
 				for n, d := range m {
 					want["root/"+b+"/"+n] = d
+					addDirs("root/" + b + "/" + n)
 				}
 			}
 			got := snapshot(parent)
 			for _, o := range st.Open { // being written: no claim about what is visible
 				delete(want, "root/"+o)
 				delete(got, "root/"+o)
+				addDirs("root/" + o)
 			}
-			var diffs []string
+			// A directory inside a bucket's own directory is not an object: the
+			// property says nothing about which of them exist, so a surplus or
+			// missing one there is a divergence from the model, not a violation.
+			insideBucket := func(p string) bool {
+				for _, b := range bh.Buckets {
+					if strings.HasPrefix(p, "root/"+b+"/") && p != "root/"+b+"/" {
+						return true
+					}
+				}
+				return false
+			}
+			var diffs, divs []string
 			for p, d := range got {
+				isDir := strings.HasSuffix(p, "/")
 				id := "sentinel"
-				if p != "sentinel" {
+				if isDir {
+					id = "dir"
+				} else if p != "sentinel" {
 					id = idOf(d)
 				}
 				if w, ok := want[p]; !ok {
-					diffs = append(diffs, "unexpected file "+p)
+					if isDir && insideBucket(p) {
+						divs = append(divs, "unexpected directory "+p)
+					} else if isDir {
+						diffs = append(diffs, "unexpected directory "+p+" outside every bucket")
+					} else {
+						diffs = append(diffs, "unexpected file "+p)
+					}
 				} else if w != id {
 					diffs = append(diffs, fmt.Sprintf("%s holds %s, want %s", p, id, w))
 				}
 			}
 			for p := range want {
 				if _, ok := got[p]; !ok {
-					diffs = append(diffs, "missing file "+p)
+					if strings.HasSuffix(p, "/") {
+						divs = append(divs, "missing directory "+p)
+					} else {
+						diffs = append(diffs, "missing file "+p)
+					}
 				}
+			}
+			if len(divs) > 0 && ndiv < 20 {
+				ndiv++
+				sort.Strings(divs)
+				if len(divs) > 6 {
+					divs = divs[:6]
+				}
+				rt.Out(rt.M{"kind": "divergence", "id": bh.ID, "step": i, "op": st.Op, "b": st.B, "name": st.Name, "dirs": divs})
 			}
 			if len(diffs) > 0 {
 				sort.Strings(diffs)
@@ -537,6 +586,13 @@ func properPathPrefix(a, b string) bool {
 func diskOf(parent string, dataID func([]byte) string) []rt.M {
 	disk := []rt.M{}
 	for p, c := range snapshot(parent) {
+		if strings.HasSuffix(p, "/") {
+			// a directory: fine at or below root/<bucket>/, reported anywhere else
+			if p != "root/" && !(strings.HasPrefix(p, "root/") && strings.Count(p, "/") >= 2) {
+				disk = append(disk, rt.M{"b": "<outside:" + p + ">", "name": [][]string{}, "data": "dir"})
+			}
+			continue
+		}
 		parts := strings.Split(p, "/")
 		if len(parts) >= 3 && parts[0] == "root" {
 			var cs [][]string
